@@ -146,7 +146,7 @@ pub fn run(ctx: &mut Ctx) {
         let s = inputs::small_string(i, small_len);
         for m in &masks {
             for l in ["default", "all"] {
-                eval(ctx, &EncCase { input: s.clone(), list: l.into(), mask: *m, macros: false, fnc1: false, eci: None, order: 0, prelude: 0, skipdef: false }, "small_scope_exhaustive", true, true);
+                eval(ctx, &EncCase { input: s.clone(), list: l.into(), mask: *m, macros: false, fnc1: false, eci: None, order: 0, prelude: 0, skipdef: false, entry: 0 }, "small_scope_exhaustive", true, true);
             }
         }
     }
@@ -193,7 +193,7 @@ pub fn run(ctx: &mut Ctx) {
                 }
                 for l in lists {
                     let use_ropt = input.len() <= 60;
-                    eval(ctx, &EncCase { input: input.clone(), list: l, mask: 63, macros: false, fnc1: false, eci: None, order: 0, prelude: 0, skipdef: false }, "capacity_boundary_sweep", use_ropt, true);
+                    eval(ctx, &EncCase { input: input.clone(), list: l, mask: 63, macros: false, fnc1: false, eci: None, order: 0, prelude: 0, skipdef: false, entry: 0 }, "capacity_boundary_sweep", use_ropt, true);
                 }
             }
         }
@@ -214,7 +214,7 @@ pub fn run(ctx: &mut Ctx) {
                 let tail: Vec<u8> = (0..tl).map(|_| inputs::class_char(&mut r, *tail_cls)).collect();
                 for order in 0..2 {
                     let input: Vec<u8> = if order == 0 { [&bin[..], &tail[..]].concat() } else { [&tail[..], &bin[..]].concat() };
-                    eval(ctx, &EncCase { input, list: "default".into(), mask: 63, macros: false, fnc1: false, eci: None, order: 0, prelude: 0, skipdef: false }, "base256_boundary_mix", true, true);
+                    eval(ctx, &EncCase { input, list: "default".into(), mask: 63, macros: false, fnc1: false, eci: None, order: 0, prelude: 0, skipdef: false, entry: 0 }, "base256_boundary_mix", true, true);
                 }
             }
         }
@@ -228,7 +228,7 @@ pub fn run(ctx: &mut Ctx) {
             item += 1;
             for t in [0usize, 1, 2, 5, 8] {
                 let input = inputs::b256_three_part(p, l, t);
-                eval(ctx, &EncCase { input, list: "default".into(), mask: 63, macros: false, fnc1: false, eci: None, order: 0, prelude: 0, skipdef: false }, "base256_boundary_three_part", true, true);
+                eval(ctx, &EncCase { input, list: "default".into(), mask: 63, macros: false, fnc1: false, eci: None, order: 0, prelude: 0, skipdef: false, entry: 0 }, "base256_boundary_three_part", true, true);
             }
         }
     }
@@ -247,7 +247,7 @@ pub fn run(ctx: &mut Ctx) {
                     };
                     let body: Vec<u8> = (0..blen).map(|i| match kind { 0 => b'0' + (i % 10) as u8, 1 => b'A' + (i % 26) as u8, _ => b"aA~b{Z|"[i % 7] }).collect();
                     let input = [head, &body[..], inputs::TRAIL].concat();
-                    eval(ctx, &EncCase { input, list: r.name.into(), mask: 63, macros: true, fnc1: false, eci: None, order: 0, prelude: 0, skipdef: false }, "macro_envelope_small_lists", true, true);
+                    eval(ctx, &EncCase { input, list: r.name.into(), mask: 63, macros: true, fnc1: false, eci: None, order: 0, prelude: 0, skipdef: false, entry: 0 }, "macro_envelope_small_lists", true, true);
                 }
             }
         }
@@ -331,7 +331,7 @@ pub fn gen_case_c10(rng: &mut crate::rng::Rng, max_len: usize) -> EncCase {
         4 => (inputs::gen_list_spec(rng), inputs::gen_mask(rng) | 1),
         _ => (inputs::gen_list_spec(rng), inputs::gen_mask(rng)),
     };
-    EncCase { input, list, mask, macros: false, fnc1: false, eci: None, order: 0, prelude: 0, skipdef: false }
+    EncCase { input, list, mask, macros: false, fnc1: false, eci: None, order: 0, prelude: 0, skipdef: false, entry: 0 }
 }
 
 // ---- frozen copies used for the fixed corpus only (see gen/frozen.rs) ----
@@ -380,7 +380,7 @@ pub fn frozen_case_c10(rng: &mut crate::rng::Rng, max_len: usize) -> EncCase {
         4 => (crate::gen::frozen::gen_list_spec(rng), crate::gen::frozen::gen_mask(rng) | 1),
         _ => (crate::gen::frozen::gen_list_spec(rng), crate::gen::frozen::gen_mask(rng)),
     };
-    EncCase { input, list, mask, macros: false, fnc1: false, eci: None, order: 0, prelude: 0, skipdef: false }
+    EncCase { input, list, mask, macros: false, fnc1: false, eci: None, order: 0, prelude: 0, skipdef: false, entry: 0 }
 }
 
 pub fn replay(ctx: &mut Ctx, case: &Case) {
